@@ -19,7 +19,7 @@ open MdIt.C01
 def FrameClosedS (S : BState → List Tok → Prop) : Prop :=
   ∀ s s' seg, s.FrameEq s' → S s seg → S s' seg
 
-theorem frameEq_symm {a b : BState} (h : a.FrameEq b) : b.FrameEq a := ⟨h.1.symm, h.2.1.symm, h.2.2.1.symm, h.2.2.2.symm⟩
+theorem frameEq_symm {a b : BState} (h : a.FrameEq b) : b.FrameEq a := ⟨⟨h.1.1.symm, h.1.2.symm⟩, h.2.1.symm, h.2.2.1.symm, h.2.2.2.symm⟩
 
 structure SegOK (P : BState → Nat → Prop) (S : BState → List Tok → Prop) (r : BRule) : Prop where
   hit : ∀ s line endLine s', CallCtx P s line endLine → r s line endLine false = .ok (true, s') →
@@ -48,7 +48,7 @@ theorem chain_seg (P : BState → Nat → Prop) (hP : FrameClosed P) (S : BState
       simp only at h
       have hfr := hr.frame _ _ _ _ _ hc hrs
       obtain ⟨seg, h1, h2, h3⟩ := ih (fun q hq => hok q (by simp [hq])) (fun q hq => hseg q (by simp [hq])) s1
-        (hc.transfer hP hfr) h
+        (hc.transfer hP hfr (hr.miss _ _ _ _ hc hrs)) h
       refine ⟨seg, by rw [h1, hm.miss _ _ _ _ hc hrs], ?_, h3⟩
       intro hmt; exact hS _ _ _ (frameEq_symm hfr) (h2 hmt)
 
@@ -93,7 +93,7 @@ theorem loop_segs (P : BState → Nat → Prop) (hP : FrameClosed P) (S : BState
                     have : s.lines[line1]? = some l := hl
                     rw [this] at hl'; exact (Option.some.inj hl').symm
                   subst hll
-                  exact ⟨hlen, by omega, hend, ⟨l', hl, hne', by simpa using hnout⟩, hP s _ _ ⟨rfl, rfl, rfl, rfl⟩ hPs⟩
+                  exact ⟨hlen, by omega, hend, ⟨l', hl, hne', by simpa using hnout⟩, rfl, hP s _ _ ⟨⟨rfl, rfl⟩, rfl, rfl, rfl⟩ hPs⟩
                 obtain ⟨m', s2', hc', hfr2, hprog, hmiss⟩ := C01.chain_ok P hP rules hok { s with line := line1 } line1 endLine hctx
                 rw [hc] at hc'
                 simp only [Except.ok.injEq, Prod.mk.injEq] at hc'
@@ -106,17 +106,17 @@ theorem loop_segs (P : BState → Nat → Prop) (hP : FrameClosed P) (S : BState
                     cases mm with
                     | true => rfl
                     | false => have := hmiss rfl; simp at this; omega
-                  have hlen2 : s2.lineMax + 1 ≤ s2.lines.length := by rw [hfr2.1, hfr2.2.1]; exact hlen
+                  have hlen2 : s2.lineMax + 1 ≤ s2.lines.length := by rw [hfr2.1.1, hfr2.2.1]; exact hlen
                   have hend2 : endLine ≤ s2.lineMax := by rw [hfr2.2.1]; exact hend
-                  have hSs : S s seg := hS _ _ _ (frameEq_symm (⟨rfl, rfl, rfl, rfl⟩ : s.FrameEq { s with line := line1 })) (hsegS hm)
+                  have hSs : S s seg := hS _ _ _ (frameEq_symm (⟨⟨rfl, rfl⟩, rfl, rfl, rfl⟩ : s.FrameEq { s with line := line1 })) (hsegS hm)
                   have fin : ∀ (l' : Nat) (he : Bool) (st : BState), st.tokens = s2.tokens → st.lineMax + 1 ≤ st.lines.length →
                       endLine ≤ st.lineMax → s2.FrameEq st →
                       blockLoop rules maxNesting endLine n l' he st = .ok s' →
                       ∃ segs : List (List Tok), s'.tokens = s.tokens ++ segs.flatten ∧ ∀ g ∈ segs, S s g := by
                     intro l' he st htok hl hE hfe hrec
-                    have hPst : P st endLine := hP _ _ _ hfe (hP _ _ _ hfr2 (hP s _ _ ⟨rfl, rfl, rfl, rfl⟩ hPs))
+                    have hPst : P st endLine := hP _ _ _ hfe (hP _ _ _ hfr2 (hP s _ _ ⟨⟨rfl, rfl⟩, rfl, rfl, rfl⟩ hPs))
                     obtain ⟨segs', hn1, hn2⟩ := ih l' he st s' hl hE hPst hrec
-                    have hst : st.FrameEq s := frameEq_symm (C01.frameEq_trans (C01.frameEq_trans ⟨rfl, rfl, rfl, rfl⟩ hfr2) hfe)
+                    have hst : st.FrameEq s := frameEq_symm (C01.frameEq_trans (C01.frameEq_trans ⟨⟨rfl, rfl⟩, rfl, rfl, rfl⟩ hfr2) hfe)
                     refine ⟨seg :: segs', ?_, ?_⟩
                     · rw [hn1, htok, hsegEq]; simp
                     · intro g hg
@@ -130,9 +130,9 @@ theorem loop_segs (P : BState → Nat → Prop) (hP : FrameClosed P) (S : BState
                     · split at h
                       · cases h
                       · split at h
-                        · exact fin (s2.line + 1) _ { s2 with tight := !hasEmpty, line := s2.line + 1 } rfl hlen2 hend2 ⟨rfl, rfl, rfl, rfl⟩ h
-                        · exact fin s2.line _ { s2 with tight := !hasEmpty } rfl hlen2 hend2 ⟨rfl, rfl, rfl, rfl⟩ h
-                    · exact fin s2.line _ { s2 with tight := !hasEmpty } rfl hlen2 hend2 ⟨rfl, rfl, rfl, rfl⟩ h
+                        · exact fin (s2.line + 1) _ { s2 with tight := !hasEmpty, line := s2.line + 1 } rfl hlen2 hend2 ⟨⟨rfl, rfl⟩, rfl, rfl, rfl⟩ h
+                        · exact fin s2.line _ { s2 with tight := !hasEmpty } rfl hlen2 hend2 ⟨⟨rfl, rfl⟩, rfl, rfl, rfl⟩ h
+                    · exact fin s2.line _ { s2 with tight := !hasEmpty } rfl hlen2 hend2 ⟨⟨rfl, rfl⟩, rfl, rfl, rfl⟩ h
     · simp only [Except.ok.injEq] at h; subst h; exact ⟨[], by simp, by simp⟩
 
 /-! ### well-formed segments compose -/
